@@ -558,5 +558,121 @@ theorem maxOf_keeps_first (a b : Val) (h : rel .gt b a ≠ .bool true) : maxOf [
 example : minOf [.int 1, .uint 1, .float F.one] = .int 1 := by rfl
 example : maxOf [.uint 1, .int 1] = .uint 1 := by rfl
 
+/-! ### min / max are the least / greatest argument in every class ordered by an integer key -/
+
+/-- A class of non-failure values whose `ord` is `cmpInt` of an integer key (int∪uint∪bool, NaN-free doubles,
+    timestamps, durations). -/
+structure Keyed (S : Val → Prop) (key : Val → Int) : Prop where
+  noErr : ∀ a, S a → a.isErr = false
+  ord_key : ∀ a b, S a → S b → ord a b = .ok (some (cmpInt (key a) (key b)))
+
+theorem Keyed.lt_iff {S key} (H : Keyed S key) {a b : Val} (ha : S a) (hb : S b) :
+    rel .lt a b = .bool (decide (key a < key b)) := by
+  rw [rel_of_ord .lt a b _ (H.noErr a ha) (H.noErr b hb) (H.ord_key a b ha hb), holds_lt]
+  congr 1
+  exact decide_eq_decide.mpr (cmpInt_lt_iff _ _)
+
+theorem Keyed.gt_iff {S key} (H : Keyed S key) {a b : Val} (ha : S a) (hb : S b) :
+    rel .gt a b = .bool (decide (key b < key a)) := by
+  rw [rel_of_ord .gt a b _ (H.noErr a ha) (H.noErr b hb) (H.ord_key a b ha hb), holds_gt]
+  congr 1
+  exact decide_eq_decide.mpr (cmpInt_gt_iff _ _)
+
+theorem foldl_min_least {S key} (H : Keyed S key) :
+    ∀ (xs : List Val) (cur : Val), S cur → (∀ v ∈ xs, S v) →
+      let r := xs.foldl (fun cur v => match rel .lt v cur with | .bool true => v | _ => cur) cur
+      S r ∧ key r ≤ key cur ∧ ∀ w ∈ xs, key r ≤ key w
+  | [], cur, hc, _ => by simp [hc]
+  | v :: vs, cur, hc, hs => by
+    have hv : S v := hs v (by simp)
+    have hvs : ∀ w ∈ vs, S w := fun w hw => hs w (by simp [hw])
+    simp only [List.foldl_cons, H.lt_iff hv hc]
+    by_cases h : key v < key cur
+    · simp only [h, decide_true]
+      obtain ⟨h1, h2, h3⟩ := foldl_min_least H vs v hv hvs
+      refine ⟨h1, by omega, ?_⟩
+      intro w hw
+      rcases List.mem_cons.mp hw with rfl | hw
+      · exact h2
+      · exact h3 w hw
+    · simp only [h, decide_false]
+      obtain ⟨h1, h2, h3⟩ := foldl_min_least H vs cur hc hvs
+      refine ⟨h1, h2, ?_⟩
+      intro w hw
+      rcases List.mem_cons.mp hw with rfl | hw
+      · omega
+      · exact h3 w hw
+
+theorem foldl_max_greatest {S key} (H : Keyed S key) :
+    ∀ (xs : List Val) (cur : Val), S cur → (∀ v ∈ xs, S v) →
+      let r := xs.foldl (fun cur v => match rel .gt v cur with | .bool true => v | _ => cur) cur
+      S r ∧ key cur ≤ key r ∧ ∀ w ∈ xs, key w ≤ key r
+  | [], cur, hc, _ => by simp [hc]
+  | v :: vs, cur, hc, hs => by
+    have hv : S v := hs v (by simp)
+    have hvs : ∀ w ∈ vs, S w := fun w hw => hs w (by simp [hw])
+    simp only [List.foldl_cons, H.gt_iff hv hc]
+    by_cases h : key cur < key v
+    · simp only [h, decide_true]
+      obtain ⟨h1, h2, h3⟩ := foldl_max_greatest H vs v hv hvs
+      refine ⟨h1, by omega, ?_⟩
+      intro w hw
+      rcases List.mem_cons.mp hw with rfl | hw
+      · exact h2
+      · exact h3 w hw
+    · simp only [h, decide_false]
+      obtain ⟨h1, h2, h3⟩ := foldl_max_greatest H vs cur hc hvs
+      refine ⟨h1, h2, ?_⟩
+      intro w hw
+      rcases List.mem_cons.mp hw with rfl | hw
+      · omega
+      · exact h3 w hw
+
+/-- `min` of any number of arguments of one keyed class is below every argument. -/
+theorem minOf_least {S key} (H : Keyed S key) (x : Val) (xs : List Val) (h : ∀ v ∈ x :: xs, S v) :
+    ∀ w ∈ x :: xs, key (minOf (x :: xs)) ≤ key w := by
+  obtain ⟨_, h2, h3⟩ := foldl_min_least H xs x (h x (by simp)) (fun v hv => h v (by simp [hv]))
+  intro w hw
+  rcases List.mem_cons.mp hw with rfl | hw
+  · exact h2
+  · exact h3 w hw
+
+theorem maxOf_greatest {S key} (H : Keyed S key) (x : Val) (xs : List Val) (h : ∀ v ∈ x :: xs, S v) :
+    ∀ w ∈ x :: xs, key w ≤ key (maxOf (x :: xs)) := by
+  obtain ⟨_, h2, h3⟩ := foldl_max_greatest H xs x (h x (by simp)) (fun v hv => h v (by simp [hv]))
+  intro w hw
+  rcases List.mem_cons.mp hw with rfl | hw
+  · exact h2
+  · exact h3 w hw
+
+theorem keyed_int : Keyed (fun v => ∃ a, ZVal v a) zKey where
+  noErr := by rintro a ⟨x, hx⟩; cases hx <;> rfl
+  ord_key := by
+    rintro a b ⟨x, hx⟩ ⟨y, hy⟩
+    rw [ord_int_joint hx hy, zKey_of hx, zKey_of hy]
+
+theorem keyed_float : Keyed (fun v => ∃ b, v = .float b ∧ F.isNaN b = false) fKey where
+  noErr := by rintro a ⟨x, rfl, _⟩; rfl
+  ord_key := by
+    rintro a b ⟨x, rfl, hx⟩ ⟨y, rfl, hy⟩
+    simp [ord, widen, hx, hy, fKey]
+
+theorem keyed_ts : Keyed (fun v => ∃ n, v = .ts n) tKey where
+  noErr := by rintro a ⟨x, rfl⟩; rfl
+  ord_key := by rintro a b ⟨x, rfl⟩ ⟨y, rfl⟩; rfl
+
+theorem keyed_dur : Keyed (fun v => ∃ n, v = .dur n) tKey where
+  noErr := by rintro a ⟨x, rfl⟩; rfl
+  ord_key := by rintro a b ⟨x, rfl⟩ ⟨y, rfl⟩; rfl
+
+/-- Mixed int / uint / bool arguments: the result denotes the least integer among them. -/
+example : minOf [.uint 9223372036854775808, .int (-1), .bool true, .int (-1)] = .int (-1) := by rfl
+example : ∀ v ∈ [Val.uint 7, .int (-1), .bool true], ∃ a, ZVal v a := by
+  intro v hv; simp at hv; rcases hv with rfl | rfl | rfl
+  · exact ⟨_, .uint 7⟩
+  · exact ⟨_, .int (-1) (by decide)⟩
+  · exact ⟨_, .bool true⟩
+
+
 end C04
 end Rscel
